@@ -1,0 +1,11 @@
+//go:build !verif
+
+package pool
+
+// Lifecycle hooks of the verification harness; no-ops without the verif build tag.
+
+func verifOnAcquire(*Pool, *Message) {}
+
+func verifOnRelease(*Pool, *Message) {}
+
+func verifBeforePut(*Pool, *Message) {}
